@@ -163,7 +163,7 @@ def rand_enum(rng, name, syntax, parent=None, infile=0):
 def rand_pfile(rng, rich=True):
     P = PFile()
     syntax = rng.choice([2, 2, 3])
-    sch = rand_schema(rng, nmsgs=rng.choice([1, 2, 3, 4, 5]), allow_generic=False, syntax=syntax)
+    sch = rand_schema(rng, nmsgs=rng.choice([1, 2, 3, 4, 5]), allow_generic=False, syntax=syntax, deprecated_p=0)
     P.sch = sch
     n = len(sch.msgs)
     # message names, nesting, files
@@ -537,6 +537,9 @@ def corpus_pfiles():
     n = 1
     for b in pbgen.TRICKY_STR:
         flds.append(Field('s%d' % n, n, L_OPT, T_STRING, dflt=('S', b))); n += 1
+    # an explicitly EMPTY default (seeded change S113: the descriptor's default object and the one init installs must be the same object)
+    flds.append(Field('s%d' % n, n, L_OPT, T_STRING, dflt=('S', b''))); n += 1
+    flds.append(Field('b%d' % n, n, L_OPT, T_BYTES, dflt=('B', b''))); n += 1
     for b in pbgen.TRICKY_BIN:
         flds.append(Field('b%d' % n, n, L_OPT, T_BYTES, dflt=('B', b))); n += 1
     for t, v in ((T_INT32, 0x80000000), (T_INT32, 0x7fffffff), (T_SINT32, 0xffffffff), (T_SFIXED32, 0x80000000),
